@@ -765,10 +765,7 @@ def select__element_kind_test(self: XPathFunction, context: ta.ContextType = Non
                     if self[1].occurrence in ('*', '?'):
                         yield item
                 elif item.type_name == type_annotation:
-                    if type_annotation != XSD_UNTYPED:
-                        yield item
-                    elif self[0].symbol != '*':
-                        yield item
+                    yield item
                 elif is_instance(item.typed_value, type_annotation, self.parser):
                     yield item
 
